@@ -12,7 +12,7 @@ import VaxisModel.Lemmas.ParserReaderInterp
 namespace VaxisModel.Props.C02Text
 open VaxisModel.Model.ParserTable VaxisModel.Model.Parser VaxisModel.Model.ParserIO VaxisModel.Model.ParserUtf8
 open VaxisModel.Lemmas.ParserUtf8 VaxisModel.Lemmas.ParserTextU VaxisModel.Lemmas.ParserRead
-open VaxisModel.Lemmas.ParserConform
+open VaxisModel.Lemmas.ParserConform VaxisModel.Lemmas.ParserText
 
 /-! ## UTF-8 -/
 
@@ -119,6 +119,22 @@ theorem print_width (cl : Nat) (hcl : 1 ≤ cl) (wd sw : List Rune → Nat) (hw 
   · rw [h1, h2]
   · rw [h1, h2, hw _ (by rw [← h2]; exact h3)]
 
+open VaxisModel.Model.ParserReaderInterp VaxisModel.Lemmas.ParserReaderInterp in
+/-- **The whole reading side, executed from the regenerated bodies, is the model's run loop.**  The
+    loop of `run` (read, transition, deliver; `EOF{}` at the end) with `readRune` and `print`
+    *interpreted from the statement skeletons regenerated on this run* — this is what the
+    correspondence driver executes, with the regenerated transition table — delivers, for every table,
+    every cluster oracle and every list of reads, exactly `ParserIO.runChunks`, the function that
+    `reads_disappear`, `chunk_independent`, `text_blocks`, `text_conserved` and the refinement theorems
+    of `Props/C02Refine.lean` are stated over.  So those theorems are theorems about the interpreter of
+    the extracted code. -/
+theorem reader_interpreted_eq_model (T : Table) (cl : Nat → Nat) (chunks : List (List Nat)) :
+    runChunksI Gen.ParserReader.readRuneBody Gen.ParserReader.printBody T cl chunks = some (runChunks T cl chunks) :=
+  runChunksI_eq _ _ readRune_body_eq_model
+    (fun cl' hcl fuel r rd => by
+      obtain ⟨w, h, _⟩ := print_body_eq_model cl' hcl (fun _ => 0) (fun _ => 0) fuel r rd
+      exact ⟨w, h⟩) T cl chunks
+
 -- non-vacuity: "e" + U+0301 in the buffer, cluster length 2, widths 1: one Print of width 1, reader at the 'A'
 example : (Model.ParserReaderInterp.interpPrint 2 (fun _ => 1) (fun _ => 1) 10 0x65 Gen.ParserReader.printBody
     { buf := [0xCC, 0x81, 0x41], chunks := [] }).map (fun x => (x.1, x.2.1, x.2.2.buf, x.2.2.pos)) =
@@ -127,6 +143,40 @@ example : (Model.ParserReaderInterp.interpPrint 2 (fun _ => 1) (fun _ => 1) 10 0
 example : (Model.ParserReaderInterp.interpPrint 2 (fun _ => 1) (fun _ => 1) 10 0x600 Gen.ParserReader.printBody
     { buf := [0xFF, 0x41], chunks := [] }).map (fun x => (x.1, x.2.1, x.2.2.buf, x.2.2.pos)) =
     some ([0x600], 1, [0xFF, 0x41], 0) := by decide
+
+/-- **Every Print, in every stream, is one grapheme cluster — or a piece of one cut at a read boundary
+    or in front of an invalid byte.**  Whatever the parser has read before and whatever is buffered
+    or still to come (any reader state: this is every call of `print` in every run), for the rune `r`
+    being printed and the cluster length `cl` the oracle reports for the text starting at `r`: the
+    grapheme emitted is `r` followed by the next `k` units of the stream, each a well-formed scalar
+    delivered as itself; exactly those bytes are consumed; `1 + k ≤ max 1 cl`; and `1 + k < max 1 cl`
+    only if the buffer is empty afterwards (the rest of the cluster has not arrived: a read boundary
+    or the end of the stream) or the next unit is an invalid byte (left to `readRune`).  With
+    `print_width` the Print also carries `StringWidth` of exactly that grapheme.  (`text_blocks` is the
+    same statement assembled over a whole text stream.) -/
+theorem print_takes_one_cluster (cl : Nat) (rd : Rd) (r : Nat) :
+    ∃ us : List U,
+      (printLoop (max 1 cl) (rd.remaining + 1) rd [r]).1 = r :: us.map U.raw ∧
+      (∀ u ∈ us, u.inv = false) ∧
+      units (bytesOf rd) = us ++ units (bytesOf (printLoop (max 1 cl) (rd.remaining + 1) rd [r]).2) ∧
+      1 + us.length ≤ max 1 cl ∧
+      (1 + us.length = max 1 cl ∨ (printLoop (max 1 cl) (rd.remaining + 1) rd [r]).2.buf = [] ∨
+        ∃ u rest, units (bytesOf (printLoop (max 1 cl) (rd.remaining + 1) rd [r]).2) = u :: rest ∧ u.inv = true) := by
+  obtain ⟨us, g1, g2, g3, g4, g5, g6, g7, g8, _, g10⟩ := printLoop_spec (max 1 cl) (rd.remaining + 1) rd [r]
+  refine ⟨us, by simpa using g1, g10, g2, ?_, ?_⟩
+  · by_cases hne : us = []
+    · subst hne; simp only [List.length_nil]; omega
+    · have := g7 hne; simp only [List.length_cons, List.length_nil] at this; omega
+  · simp only [List.length_cons, List.length_nil] at g8
+    have hrem := remaining_eq rd
+    rcases g8 with h | h | h | h
+    · left
+      by_cases hne : us = []
+      · subst hne; simp only [List.length_nil] at h ⊢; omega
+      · have := g7 hne; simp only [List.length_cons, List.length_nil] at this; omega
+    · exact Or.inr (Or.inl h)
+    · exfalso; omega
+    · exact Or.inr (Or.inr h)
 
 /-! ## The reads disappear -/
 
